@@ -75,8 +75,8 @@ PROPS = {
 PROPS["C20"] = {
     "units": ["configdb"],
     "kani": [],
-    "level_text": "Proof on the real functions: ConfigDatabase::validate returns Ok iff the stored value exists and equals the given one (missing record => Err); get prefers the in-memory row, set writes through; validate_config_database reaches Ok only with all four settings (DB_VERSION, PROTOCOL_VERSION, BITCOIN_RPC_NETWORK, EVM_RECORD_TRACES) recorded and equal to the running configuration, whether just written (fresh directory) or validated; versions pinned (7 / 2).",
-    "level_note": "Assumed: file system predicates (exists, is_dir, read_dir) uninterpreted; ConfigDatabase::new opens whatever is on disk; String codec injective on text (axiom; proved for the byte-vector codec in unit codec); HashMap<String,String> keyed by text through trusted wrappers (N23); decimal/bool to_string opaque. Not covered: start() calling the check before opening the engine (async), `an identical configuration always reopens successfully` beyond the absence of I/O errors.",
+    "level_text": "Proof on the real functions: ConfigDatabase::validate returns Ok iff the stored value exists and equals the given one (missing record => Err); get prefers the in-memory row, set writes through; validate_config_database reaches Ok only with all four settings (DB_VERSION, PROTOCOL_VERSION, BITCOIN_RPC_NETWORK, EVM_RECORD_TRACES) recorded and equal to the running configuration, whether just written (fresh directory) or validated; and, over an uninterpreted model of the directory at entry (fs_exists / fs_nonempty / fs_config = the rows of the config database on disk): a NON-EMPTY directory whose recorded configuration lacks or differs in any of the four settings - including a directory with data and no configuration at all - makes the function return Err; versions pinned (7 / 2).",
+    "level_note": "Assumed: file system predicates (exists, is_dir, read_dir, join) uninterpreted, read_dir().next() answers fs_nonempty, create_dir_all of a missing directory creates an empty one; ConfigDatabase::new opens the rows that are on disk (fs_config); String codec injective on text (axiom; proved for the byte-vector codec in unit codec); HashMap<String,String> keyed by text through trusted wrappers (N23); decimal/bool to_string opaque. Not covered: start() calling the check before opening the engine (async), `an identical configuration always reopens successfully` beyond the absence of I/O errors.",
     "assumptions": [
         "file system and RocksDB behave as the shims say; I/O errors make the function return Err (allowed by the property: start-up fails)",
         "lazy_static key/value literals are re-read from config.rs on every run (rule N6)",
@@ -135,9 +135,9 @@ PROPS["C06"] = {
 PROPS["C08"] = {
     "units": ["engine", "dbfacade"],
     "kani": [],
-    "level_text": "Proof on the real add_raw_tx_to_block control skeleton: a transaction is parked only with account_nonce < nonce < account_nonce + 10, executed first only with nonce == account nonce (or none), every drained transaction is younger than 10 blocks and receives transaction index = index of the call + receipts produced so far (loop invariant), nonces advance by one per receipt; clear_txpool drops a parked transaction iff it has no arrival block or arrived >= 10 blocks ago and leaves every other one untouched.",
+    "level_text": "Proof on the real add_raw_tx_to_block control skeleton: a transaction is parked only with account_nonce < nonce < account_nonce + 10, executed first only with nonce == account nonce (or none), every drained transaction is younger than 10 blocks and receives transaction index = index of the call + receipts produced so far (loop invariant), nonces advance by one per receipt and every drained transaction carries exactly the account's next nonce (site precondition over what the pool lookup returned); drain completeness over a ghost model of the pending pool (map (signer, nonce) -> parked transaction, answered by the lookup site, updated at the removal site): whenever the call returns receipts, nothing is left waiting at the signer's next nonce - the loop ran every consecutive successor or dropped an expired one - and the entry removed is the one that was looked up; clear_txpool drops a parked transaction iff it has no arrival block or arrived >= 10 blocks ago and leaves every other one untouched.",
     "level_note": COMMON_TRUST + "Closures are guarded sites (N10); revm's own nonce check, signature recovery, chain-id filter (alloy) and txpool_content are outside. Termination of the drain loop is not proved (it ends when the pool has no next nonce).",
-    "assumptions": ["nonces, transaction indexes and arrival blocks are < 2^63", "drain-loop termination not proved"],
+    "assumptions": ["nonces, transaction indexes and arrival blocks are < 2^63", "drain-loop termination not proved", "pool invariant assumed at entry: nothing is parked at or beyond account nonce + 10 (parking precondition + monotone account nonces)", "a parked transaction is stored under its own signer and nonce (pool lookup shim)"],
 }
 PROPS["C09"] = {
     "units": ["payload", "precompile", "scalars", "engine", "dbfacade", "blockdb", "dbslot"],
@@ -147,7 +147,7 @@ PROPS["C09"] = {
     "assumptions": ["heights/nonces < 2^63", "external crates (revm, alloy sol types, bitcoin, bip322) outside the kernel"],
 }
 PROPS["C16"]["units"] = ["scalars", "engine"]
-PROPS["C16"]["level_text"] = PROPS["C16"]["level_text"] + " In add_tx_to_block the value handed to the EVM site and to the receipt is get_gas_limit(inscription_byte_len) (site precondition)."
+PROPS["C16"]["level_text"] = PROPS["C16"]["level_text"] + " In add_tx_to_block the value handed to the EVM site and to the receipt is get_gas_limit(inscription_byte_len) (site precondition); a parked transaction replayed by the drain of add_raw_tx_to_block is given an inscription length whose allowance is at most the allowance recorded when it was parked (site precondition gas_limit_spec(byte_len) <= stored gas)."
 PROPS["C19"] = {
     "units": ["evmctx", "scalars", "dbfacade", "engine"],
     "kani": [],
